@@ -22,7 +22,7 @@ from harness.tracecheck import validate_traces
 SD = SPEC / "metadata"
 DESIGN_REF = "DESIGN.md section 7 (C17), section 8"
 
-MODEL_KEYS = ["a", "b", "c", "plan_name", "plan_type", "scan_id"]
+MODEL_KEYS = ["a", "b", "c", "plan_name", "plan_type", "scan_id"]          # AllKeys of the model-checking configs (subset of TRACE_KEYS)
 TRACE_KEYS = ["a", "b", "c", "d", "plan_name", "plan_type", "scan_id", "versions"]      # = AllKeys of MetadataTrace.cfg
 FIELDS = ("op", "o", "vmode", "nmode", "kind", "start", "md", "kw", "ident")
 PLAN_TYPES = {1: "generator", 2: "PlanObj"}
@@ -332,7 +332,8 @@ def run(ctx):
         except Exception as ex:  # noqa
             ctx.violation(f"random-exc:{type(ex).__name__}", f"random history raised {ex!r}", {"hist": h})
     with ThreadPoolExecutor(6) as ex:
-        futs = {k: ex.submit(run_tlc, "Metadata", c, spec_dir=SD, tag="C17" + k, workers=1, timeout=3000) for k, c in cfgs.items()}
+        jo = ["-Xmx2g"] if quick else None        # small runs start faster with a small heap
+        futs = {k: ex.submit(run_tlc, "Metadata", c, spec_dir=SD, tag="C17" + k, workers=1, timeout=3000, java_opts=jo) for k, c in cfgs.items()}
         vt = ex.submit(validate_traces, "MetadataTrace", "MetadataTrace.cfg", traces, SD, ctx.out, tag="C17t", timeout=3000)
         results = {k: f.result() for k, f in futs.items()}
     # 2. every maximal history replayed on a real RunEngine
